@@ -69,6 +69,44 @@ theorem allocT_tcell (h l j) : (allocT h l).1.tcell j = if j = h.nT then l else 
 theorem newId_node (h x j) :
     (newId h x).node j = if j = x then { h.node j with id := h.nextId } else h.node j := rfl
 
+/-! ### The dicts `_merged_attrs` (fourth address space) -/
+
+@[simp] theorem updN_dcell (h i f) : (updN h i f).dcell = h.dcell := rfl
+@[simp] theorem updN_nD (h i f) : (updN h i f).nD = h.nD := rfl
+@[simp] theorem updV_dcell (h i f) : (updV h i f).dcell = h.dcell := rfl
+@[simp] theorem updV_nD (h i f) : (updV h i f).nD = h.nD := rfl
+@[simp] theorem updT_dcell (h i f) : (updT h i f).dcell = h.dcell := rfl
+@[simp] theorem updT_nD (h i f) : (updT h i f).nD = h.nD := rfl
+@[simp] theorem allocN_dcell (h n) : (allocN h n).1.dcell = h.dcell := rfl
+@[simp] theorem allocN_nD (h n) : (allocN h n).1.nD = h.nD := rfl
+@[simp] theorem allocV_dcell (h l) : (allocV h l).1.dcell = h.dcell := rfl
+@[simp] theorem allocV_nD (h l) : (allocV h l).1.nD = h.nD := rfl
+@[simp] theorem allocT_dcell (h l) : (allocT h l).1.dcell = h.dcell := rfl
+@[simp] theorem allocT_nD (h l) : (allocT h l).1.nD = h.nD := rfl
+@[simp] theorem newId_dcell (h x) : (newId h x).dcell = h.dcell := rfl
+@[simp] theorem newId_nD (h x) : (newId h x).nD = h.nD := rfl
+
+@[simp] theorem allocD_ret (h l) : (allocD h l).2 = h.nD := rfl
+@[simp] theorem allocD_nN (h l) : (allocD h l).1.nN = h.nN := rfl
+@[simp] theorem allocD_nV (h l) : (allocD h l).1.nV = h.nV := rfl
+@[simp] theorem allocD_nT (h l) : (allocD h l).1.nT = h.nT := rfl
+@[simp] theorem allocD_nD (h l) : (allocD h l).1.nD = h.nD + 1 := rfl
+@[simp] theorem allocD_nextId (h l) : (allocD h l).1.nextId = h.nextId := rfl
+@[simp] theorem allocD_node (h l) : (allocD h l).1.node = h.node := rfl
+@[simp] theorem allocD_vcell (h l) : (allocD h l).1.vcell = h.vcell := rfl
+@[simp] theorem allocD_tcell (h l) : (allocD h l).1.tcell = h.tcell := rfl
+theorem allocD_dcell (h l j) : (allocD h l).1.dcell j = if j = h.nD then l else h.dcell j := rfl
+
+@[simp] theorem updD_nN (h i f) : (updD h i f).nN = h.nN := rfl
+@[simp] theorem updD_nV (h i f) : (updD h i f).nV = h.nV := rfl
+@[simp] theorem updD_nT (h i f) : (updD h i f).nT = h.nT := rfl
+@[simp] theorem updD_nD (h i f) : (updD h i f).nD = h.nD := rfl
+@[simp] theorem updD_nextId (h i f) : (updD h i f).nextId = h.nextId := rfl
+@[simp] theorem updD_node (h i f) : (updD h i f).node = h.node := rfl
+@[simp] theorem updD_vcell (h i f) : (updD h i f).vcell = h.vcell := rfl
+@[simp] theorem updD_tcell (h i f) : (updD h i f).tcell = h.tcell := rfl
+theorem updD_dcell (h i j f) : (updD h i f).dcell j = if j = i then f (h.dcell j) else h.dcell j := rfl
+
 /-! ### Growth and frames -/
 
 /-- Sizes only grow. -/
